@@ -249,6 +249,52 @@ def run(seed, tier, lean) -> Result:
             break
     return res
 
+def genexec_measure(seed: int, n: int) -> dict:
+    """seeded experiment (tools/genexec_seeded.py), DOCUMENT family only (the history family is measured by the tool
+    itself): n histories of the quick check on the (mutated) implementation, the hand model (`ag_hist`, step by step up to
+    the first disagreement) and the (regenerated) code: the documents of `_to_dict` of the copy and the original right
+    after the deep copy and at the end.  A case = one history."""
+    from .. import genexec
+    rnd = random.Random(seed)
+    st = {'cases': 0, 'impl_ne_hand': 0, 'gen_follows_impl': 0, 'gen_ne_impl': 0, 'impl_crash': 0, 'examples': []}
+    def note(kind, info):
+        if len([e for e in st['examples'] if e[0] == kind]) < 2: st['examples'].append([kind, info])
+    hists = [gen_history(random.Random(rnd.getrandbits(48))) for _ in range(n)]
+    hand, gen = genexec.run_both([{'op': 'ag_hist', 'case': i, 'ops': h} for i, h in enumerate(hists)], 'gen_ag_todict',
+                                 rewrite=lambda q: dict(q, pos=doc_positions(q['ops'])))
+    res = Result(); differ_docs = 0
+    for hi, ops in enumerate(hists):
+        st['cases'] += 1
+        if 'error' in hand[hi] or 'error' in gen[hi]:
+            note('driver-error', [hand[hi].get('error'), gen[hi].get('error')]); continue
+        tap = GenDocs(gen[hi]['model'], res)
+        im = Impl(); first = None
+        for i, op in enumerate(ops):
+            tap('before', i, op, im, None)
+            try: s_ = im.step(op)
+            except Exception as e:
+                st['impl_crash'] += 1; note('impl-crash', f'{type(e).__name__} at step {i} ({op["k"]}): {str(e)[:80]}'); first = -1; break
+            mo = hand[hi]['model'][i]
+            tap('after', i, op, im, s_)
+            a = [s_['err'], canon_out(op, s_['out']), canon_obs(s_['obs']), canon_obs(s_['other']) if s_['other'] else None]
+            b = [mo['err'], canon_out(op, mo['out']), canon_obs(mo['obs']), canon_obs(mo['other']) if mo['other'] else None]
+            if a != b:
+                first = i
+                if op['k'] == 'deepcopy': tap('before', i + 1, None, im, None)     # the documents of the copy that differs
+                break
+        else:
+            tap('end', len(ops), None, im, None)
+        differ_docs += len(tap.bad)
+        if first is not None and first >= 0:
+            st['impl_ne_hand'] += 1
+            if not tap.bad:
+                st['gen_follows_impl'] += 1; note('gen=impl!=hand', {'history': hi, 'step': first, 'op': ops[first]})
+        if tap.bad:
+            st['gen_ne_impl'] += 1; note('gen!=impl', {'ops': ops[:tap.bad[0][0]], 'side': tap.bad[0][1], 'what': tap.bad[0][2]})
+    st['document_family'] = dict({k: st[k] for k in ('cases', 'impl_ne_hand', 'gen_follows_impl', 'gen_ne_impl', 'impl_crash')},
+                                 documents_compared=res.distribution.get('generated_code_documents_compared', 0), documents_differ=differ_docs)
+    return st
+
 def replay(path):
     r = json.load(open(path))
     if 'extra_scenario' in r:
